@@ -171,8 +171,11 @@ def verify_function(make_ctx, reg, qualname, timeout_ms=10000, both=False):
             genv = dict(pf.env)
             for gu in (k["ghost_init"] if (k is not None and is_init) else []) + c["ghost_update"]:
                 exec_ghost(it, reg, gu, pf, result, run.old_state, genv)
+            # lemma instances at the exit may mention the function's final locals (like loop invariants do)
+            uf_ = X.Frame(dict(getattr(run, "entry_frame", pf).env), fi, fi.cls, module=fi.module)
+            uf_.env.update(pf.env)
             for use in c.get("use_exit", []):
-                reg.use_lemma(it, use, pf)
+                reg.use_lemma(it, use, uf_)
             for etype, spec in c["raises"].items():
                 if isinstance(spec, dict) and spec.get("iff") and spec.get("when"):
                     cond = reg.eval_clause(it, spec["when"], pf, old=run.old_state)
